@@ -732,36 +732,13 @@ func c33OnlyStoresTo(c *Ctx, rule string, fn *ssa.Function, addrGlobs ...string)
 // c33MapRanges: every `range` over a map in the loaded presence package is an enumerated
 // site (function → why its iteration order cannot leak); a new one fails.
 func c33MapRanges(c *Ctx, rule string, table map[string]string) {
-	seen := map[string]int{}
+	var fns []*ssa.Function
 	for _, fn := range c.P.AllFuncs {
-		name := c.P.Name(fn)
-		if !strings.HasPrefix(name, c33P) {
-			continue
-		}
-		for _, b := range fn.Blocks {
-			for _, in := range b.Instrs {
-				r, ok := in.(*ssa.Range)
-				if !ok {
-					continue
-				}
-				if _, isMap := r.X.Type().Underlying().(*types.Map); !isMap {
-					continue
-				}
-				seen[name]++
-				if _, ok := table[name]; !ok {
-					c.add("determ", rule, "map-range:"+name+"#"+Path(r.X), Violated, c.P.InstrPos(in),
-						fmt.Sprintf("%s iterates over map %s but is not an enumerated order-insensitive (or sorted) iteration", name, Path(r.X)))
-				}
-			}
+		if strings.HasPrefix(c.P.Name(fn), c33P) {
+			fns = append(fns, fn)
 		}
 	}
-	for name, why := range table {
-		if seen[name] == 0 {
-			c.add("determ", rule, "map-range:"+name, Undecided, "", "enumerated map iteration no longer exists (stale table)")
-			continue
-		}
-		c.add("determ", rule, "map-range:"+name, Exception, "", fmt.Sprintf("%d map iteration(s): %s", seen[name], why))
-	}
+	c.MapRanges(rule, fns, table, nil, []string{c33P + "sortRoutes"})
 }
 
 // c33SortedReturn: every return of fn whose result idx is not nil returns a value that
